@@ -97,6 +97,8 @@ def fork_run(prop, plan, seed, choices=None, wall_cap=120.0, want_choices=False)
             data = json.dumps(res, default=repr).encode()
             with os.fdopen(w, 'wb') as f:
                 f.write(data)
+        except BrokenPipeError:
+            code = 0                 # the reader went away (batch over): nobody wants this result
         except BaseException:
             traceback.print_exc()
             code = 3
@@ -145,10 +147,15 @@ def _block_child(prop, pid_, master, indices, tier, out_fd, wall_cap):
     signal.signal(signal.SIGALRM, on_alarm)
     T = {'start': 0.0, 'plan': 0.0, 'exec': 0.0, 'emit': 0.0, 'gc': 0.0}
     tb0 = time.time()
+    # the parent stops reading once it has a violation to confirm: a closed pipe ends this block quietly
+    signal.signal(signal.SIGPIPE, lambda *a: os._exit(0))
     for n, i in enumerate(indices):
         t_a = time.time()
-        out.write('START %d\n' % i)
-        out.flush()
+        try:
+            out.write('START %d\n' % i)
+            out.flush()
+        except BrokenPipeError:
+            os._exit(0)
         signal.setitimer(signal.ITIMER_REAL, wall_cap)
         T['start'] += time.time() - t_a
         seed = run_seed(master, pid_, i)
@@ -160,8 +167,11 @@ def _block_child(prop, pid_, master, indices, tier, out_fd, wall_cap):
         res['index'] = i
         if res.get('violations') or res.get('status') != 'ok' or i < 3:
             res['plan'] = plan
-        out.write(json.dumps(res, default=repr) + '\n')
-        out.flush()
+        try:
+            out.write(json.dumps(res, default=repr) + '\n')
+            out.flush()
+        except BrokenPipeError:
+            os._exit(0)
         if n % 50 == 49:
             t_c = time.time()
             gc.collect()
